@@ -165,6 +165,9 @@ func loadKnown() []KnownFinding {
 	return f.Findings
 }
 
+// memGuardBytes: heap size at which the watchdog declares a runaway allocation.
+var memGuardBytes = uint64(14) << 30
+
 // NewRun creates a run; budget is the internal time budget.
 func NewRun(prop, tier string, seed int64, level string, budget time.Duration) *Run {
 	r := &Run{
@@ -334,8 +337,32 @@ func (r *Run) MarkIncomplete(why string) {
 }
 
 func (r *Run) watchdog() {
+	tick := 0
 	for {
-		time.Sleep(5 * time.Second)
+		time.Sleep(250 * time.Millisecond)
+		// a call of the library that allocates without bound (e.g. a builder that
+		// loops on an input it should have refused) must end as a violation with
+		// the case on record, not as an out-of-memory crash
+		var ms runtime.MemStats
+		runtime.ReadMemStats(&ms)
+		if ms.HeapAlloc > memGuardBytes {
+			var descs []string
+			for _, w := range r.workers {
+				if atomic.LoadInt64(&w.curStart) != 0 {
+					if f, ok := w.cur.Load().(func() string); ok {
+						descs = append(descs, f())
+					}
+				}
+			}
+			fmt.Fprintf(os.Stderr, "watchdog: heap grew to %d MiB; cases in flight: %v\n", ms.HeapAlloc>>20, descs)
+			r.report(Viol{Sig: "unbounded-memory", Msg: fmt.Sprintf("a library call allocates without bound (heap %d MiB); cases in flight: %v", ms.HeapAlloc>>20, descs), Kind: "none", Unit: 0})
+			code := r.Finish()
+			os.Exit(code)
+		}
+		tick++
+		if tick%20 != 0 {
+			continue
+		}
 		now := time.Now().UnixNano()
 		for _, w := range r.workers {
 			st := atomic.LoadInt64(&w.curStart)
